@@ -65,7 +65,7 @@ REQUIRED_PROBES = ["move_selected", "copy_selected", "delete_selected",
                    "compressed_written", "later_finished_before_earlier"]
 
 _T = {}
-BASE = datetime(2019, 2, 27)       # crosses a month end
+BASE = datetime(2019, 2, 27)       # crosses a month end (see BASES for the others)
 
 
 def setup():
@@ -80,9 +80,20 @@ def setup():
 
 
 # ------------------------------------------------------- user (pickle) handler
+SIM = [None]      # the running simulation (reached by the pickled-by-name callbacks)
+
+
+def _yield(label):
+    sim = SIM[0]
+    if sim is not None and sim.me() is not None:
+        sim.yield_(label)
+
+
 def p_reader(file_info, tag=None):
+    _yield("reader:in")
     with open(file_info.path, "rb") as f:
         data = pickle.load(f)
+    _yield("reader:out")
     if tag is not None:
         data = dict(data, read_tag=tag)
     return data
@@ -91,8 +102,12 @@ def p_reader(file_info, tag=None):
 def p_writer(data, file_info, wtag=None):
     if wtag is not None:
         data = dict(data, write_tag=wtag)
+    _yield("writer:in")
     with open(file_info.path, "wb") as f:
         pickle.dump(data, f, protocol=4)
+    # other tasks may run between writing the (temporary) file and the
+    # compression / end of the write call
+    _yield("writer:out")
 
 
 def post_reader(file_info, data):
@@ -110,7 +125,12 @@ TEMPLATES = [
     "{year}/{doy}/{sat}_{hour}{minute}{second}",
     "{year2}{month}{day}{hour}{minute}{second}{millisecond}-{sat}",
     "flat_{sat}/{year}-{month}-{day}T{hour}{minute}{second}",
+    "{year}{doy}_{hour}{minute}{second}-{end_year}{end_doy}_{end_hour}{end_minute}"
+    "{end_second}_{sat}",
+    "{sat}/{year}/{doy}/{hour}{minute}{second}",
 ]
+BASES = [datetime(2019, 2, 27), datetime(2019, 12, 30, 18), datetime(2020, 12, 31, 6),
+         datetime(2020, 2, 28, 12)]
 EXTS = {"pickle": [".dat", ".bin"], "pickle_z": [".dat.gz", ".dat.bz2", ".dat.zip",
                                                   ".dat.xz"],
         "csv": [".csv", ".txt"], "nc": [".nc"]}
@@ -143,6 +163,8 @@ def gen_workload(tape):
             o["dur"] = tape.pick([0, 30, 3600, 21540, 90], "dur")
             o["sat"] = tape.pick(SATS, "sat")
             o["via"] = tape.pick(["setitem", "write"], "via")
+            o["dup_of"] = tape.choice(12, "dup_of") if tape.flag("dup", 1, 4) else None
+            o["dup_days"] = tape.pick([0, 1, 0, -1], "dup_days")
             o["serial"] = serial
             serial += 1
         elif op in ("move", "copy", "delete", "dry_delete", "collect", "find"):
@@ -166,6 +188,7 @@ def gen_workload(tape):
             o["idx"] = tape.choice(12, "ridx")
         ops.append(o)
     w["ops"] = ops
+    w["base"] = tape.choice(len(BASES), "base")
     return w
 
 
@@ -251,6 +274,7 @@ class Run:
         self.V = []
         self.state_changes = 0
         self.selected_ops = 0
+        self.base = BASES[w.get("base", 0)]
         self.log = sim.event
 
     # -- filesets ---------------------------------------------------------------
@@ -340,8 +364,8 @@ class Run:
             return {}, mine
         if sel == "period":
             a, b = o["period"]
-            start = BASE + timedelta(minutes=67 * a - 20, seconds=0.5)
-            end = BASE + timedelta(minutes=67 * b - 20, seconds=0.5)
+            start = self.base + timedelta(minutes=67 * a - 20, seconds=0.5)
+            end = self.base + timedelta(minutes=67 * b - 20, seconds=0.5)
             return ({"start": start, "end": end},
                     [f for f in mine if f.cov[0] < end and f.cov[1] >= start])
         if sel == "files":
@@ -369,7 +393,12 @@ class Run:
                 old = self.files[mine[o["slot"] % len(mine)]]
                 t0, t1, sat = old.cov[0], old.cov[1], old.sat
             else:
-                t0 = BASE + timedelta(minutes=67 * o["slot"], seconds=o["sec"])
+                t0 = self.base + timedelta(minutes=67 * o["slot"], seconds=o["sec"])
+                if o.get("dup_of") is not None:
+                    mine = sorted(f.path for f in self.files.values() if f.fs == 0)
+                    if mine:      # same time of day as an existing file, other day/sat
+                        ref = self.files[mine[o["dup_of"] % len(mine)]].cov[0]
+                        t0 = ref + timedelta(days=o["dup_days"])
                 t1 = t0 + timedelta(seconds=o["dur"])
                 sat = o["sat"]
             path = naming.fmt(ms.template, t0, t1, sat=sat)
@@ -596,6 +625,7 @@ def run_one(tape, only=None):
     run = Run(w, root, sim)
     fsmod = _T["fsmod"]
     SimPoolBase.sim, SimPoolBase.registry = sim, []
+    SIM[0] = sim
     outcome = {}
     import tempfile
     saved_tmp = tempfile.tempdir
@@ -630,6 +660,7 @@ def run_one(tape, only=None):
                 sim.probe("later_finished_before_earlier")
     finally:
         tempfile.tempdir = saved_tmp
+        SIM[0] = None
         SimPoolBase.sim = None
         SimPoolBase.registry = None
         shutil.rmtree(root, ignore_errors=True)
